@@ -220,6 +220,34 @@ def r_fmt_pair(ck: Checker) -> None:
     ok = len(pk) == 1 and len(up) == 1 and is_const(kw(pk[0], "use_bin_type") or ast.Constant(value=None), True) \
         and is_const(kw(up[0], "raw") or ast.Constant(value=None), False)
     (ck.holds if ok else ck.violation)("R-FMT-PAIR", f, f.node, what, **({} if ok else {"construct": f"packb {[norm(c)[:60] for c in pk]} / unpackb {[norm(c)[:60] for c in up]}"}))
+    # other reader / writer options of the MessagePack codec: only the ones known to keep the value kinds apart
+    what = "MessagePack: no codec option that changes the kind of a value (lists stay lists, keys stay what they were)"
+    READER_OK = {"raw": (False,), "use_list": (True,), "strict_map_key": (True, False), "timestamp": (0,)}
+    WRITER_OK = {"use_bin_type": (True,), "strict_types": (True, False), "datetime": (False,), "use_single_float": (False,)}
+    for calls, table, side in ((up, READER_OK, "unpackb"), (pk, WRITER_OK, "packb")):
+        for c in calls:
+            for k in c.keywords:
+                if k.arg is None:
+                    raise Unsupported(f"msgpack.{side} called with **options", c)
+                if k.arg in table and isinstance(k.value, ast.Constant) and k.value.value in table[k.arg]:
+                    continue
+                if k.arg == "use_list" and is_const(k.value, False):
+                    ck.violation("R-FMT-PAIR", g, c, what, construct="from_msgpck: unpackb(use_list=False) turns every serialized list into a tuple (list values of untyped properties come back as tuples)")
+                    break
+                if k.arg in ("object_hook", "object_pairs_hook", "list_hook", "ext_hook", "default"):
+                    raise Unsupported(f"msgpack.{side}({k.arg}=...) installs a conversion hook", c)
+                if k.arg in table:
+                    ck.violation("R-FMT-PAIR", g if side == "unpackb" else f, c, what, construct=f"msgpack.{side}({k.arg}={norm(k.value)[:30]})")
+                    break
+                raise Unsupported(f"msgpack.{side} option {k.arg} is not in the audited table", c)
+            else:
+                continue
+            break
+        else:
+            continue
+        break
+    else:
+        ck.holds("R-FMT-PAIR", g, g.node, what)
     # codec options of the JSON writer: only options that leave the encoded values alone (layout only)
     fj = ck.repo.func(SER, f"{MIXIN}.to_jsonb")
     LAYOUT_ONLY = {"OPT_INDENT_2", "OPT_APPEND_NEWLINE"}
